@@ -240,8 +240,11 @@ func (s *zzSink) Write(p []byte) (int, error) {
 	return len(p), nil
 }
 
+// zzSinkStep: the steering delay per event (0: events pass straight through).
+var zzSinkStep = 25 * time.Millisecond
+
 func zzNewSink() *zzSink {
-	s := &zzSink{t0: time.Now(), rank: map[string][]int{}, seen: map[string]int{}, step: 25 * time.Millisecond}
+	s := &zzSink{t0: time.Now(), rank: map[string][]int{}, seen: map[string]int{}, step: zzSinkStep}
 	n := 0
 	for _, l := range zz.ModelTrace() {
 		// "g3 S A.0 0"
@@ -284,6 +287,7 @@ func zzExecOpts(g *zzGraph, tf *ast.Taskfile, o zzRunOpts, terminal bool, roots 
 	zzGraphCur = g
 	zzRun = zzProbe
 	zzEnviron = []string{"HOME=/h"}
+	before := len(zz.Trace()) // the events of this invocation only
 	var out io.Writer = io.Discard
 	if zz.Native() {
 		out = zzNewSink()
@@ -303,14 +307,14 @@ func zzExecOpts(g *zzGraph, tf *ast.Taskfile, o zzRunOpts, terminal bool, roots 
 		go func() { done <- e.Run(context.Background(), calls...) }()
 		select {
 		case err := <-done:
-			return zz.Trace(), err
+			return zz.Trace()[before:], err
 		case <-time.After(8 * time.Second):
 			fmt.Println("ZZ-TIMEOUT the invocation did not terminate")
-			return zz.Trace(), fmt.Errorf("zz: did not terminate")
+			return zz.Trace()[before:], fmt.Errorf("zz: did not terminate")
 		}
 	}
 	err := e.Run(context.Background(), calls...)
-	return zz.Trace(), err
+	return zz.Trace()[before:], err
 }
 
 // ---- trace queries -------------------------------------------------------------------------
